@@ -630,3 +630,45 @@ func FuzzCommands(f *testing.F) {
 		}
 	})
 }
+
+// TestEveryCodePoint: every Unicode code point (all 1 112 064 scalar values), alone as a segment and between two
+// letters, through Parse / IsValid / String: accepted exactly when the reference grammar says so (code points whose
+// case status the statement does not pin down are skipped and counted), and returned unchanged. A rule about "upper-case
+// letters" is a rule about every letter there is, not about the few dozen a generator's alphabet holds.
+func TestEveryCodePoint(t *testing.T) {
+	ctx := &h.Ctx{P: P, T: t}
+	n, unspec := 0, 0
+	for r := rune(0); r <= unicode.MaxRune; r++ {
+		if r >= 0xd800 && r <= 0xdfff {
+			continue
+		}
+		for _, s := range []string{"/" + string(r), "/a" + string(r) + "b/c"} {
+			if r == '/' {
+				continue
+			}
+			want, specified := refValid(s)
+			got, err := command.Parse(s)
+			if !specified {
+				unspec++
+				continue
+			}
+			n++
+			if (err == nil) != want {
+				ctx.Fail("C15/parse/grammar", "Parse(%q) (code point U+%04X): accepted=%v, grammar says %v (err=%v)", s, r, err == nil, want, err)
+				return
+			}
+			if command.IsValid(s) != want {
+				ctx.Fail("C15/parse/isvalid", "IsValid(%q) (code point U+%04X) disagrees with Parse", s, r)
+				return
+			}
+			if err == nil && got.String() != s {
+				ctx.Fail("C15/parse/unchanged", "Parse(%q).String() = %q", s, got.String())
+				return
+			}
+		}
+	}
+	P.EvalN(n)
+	P.AddDistinct(n)
+	P.ClassN("parse/code-point-unspecified", unspec)
+	P.SetExtra("code_points_judged", n)
+}
